@@ -199,6 +199,40 @@ def proxydial_scenarios(ctx):
     return scen
 
 
+def chain_scenarios(ctx):
+    """End-to-end chain (Chain.tla): every environment history of the bounded model, concretised with size classes, over
+    the real transports of the registry."""
+    quick = ctx.quick()
+    out, _ = ctx.tlc_emit("Chain", "Chain_gen.cfg", tag="CHAIN", label="end-to-end environment script generation", workers=1, timeout=900)
+    rng = random.Random(ctx.seed * 613 + 5)
+    seen, hists = set(), []
+    for _n, hist in out:
+        key = json.dumps(hist, sort_keys=True)
+        if key in seen or not hist:
+            continue
+        seen.add(key)
+        hists.append(hist)
+    if len(hists) < 50:
+        raise Inconclusive("only %d chain scripts generated" % len(hists))
+    rng.shuffle(hists)
+    if quick:
+        hists = hists[:60]
+    scen = []
+    sizes = [1, 2, 100, 1427, 1428, 1448, 4096, 32768, 70000]
+    for i, hist in enumerate(hists):
+        tr, iat = [("obfs4", 0), ("obfs4", 1), ("obfs3", 0), ("obfs2", 0), ("obfs4", 0), ("obfs4", 2)][i % 6]
+        steps = []
+        for h in hist:
+            n = rng.choice(sizes)
+            if iat == 2:
+                n = min(n, 3000)
+            steps.append({"a": h["a"], "e": h["e"], "k": h["k"], "n": n})
+            if h["a"] == "produce" and rng.random() < 0.4:
+                steps.append({"a": "settle", "e": "", "k": "", "n": 0})
+        scen.append({"id": "chain%d" % i, "transport": tr, "iat": iat, "steps": steps})
+    return scen
+
+
 def run(ctx):
     quick = ctx.quick()
     ctx.tlc_expect_ok("Relay", "Relay_MC.cfg", label="relay exhaustive (safety + liveness)", timeout=1200)
@@ -263,6 +297,22 @@ def run(ctx):
         return rej[0] if rej else None
     ctx.settle(hrej, hreexec, lambda tr: "real clientHandler/serverHandler run rejected at event %s: %s" % (
         tr["reject"]["at_event_index"], json.dumps(tr["reject"]["event"])), attempts=2)
+    # growth: the whole chain application <-> clientHandler <-> real transport <-> serverHandler <-> OR port (Chain.tla)
+    ctx.tlc_expect_ok("Chain", "Chain_MC.cfg", label="end-to-end chain: prefix, one-way graceful completeness, teardown propagation (safety + liveness)", timeout=900)
+    ctx.tlc_expect_violation("Chain", "Chain_twoway.cfg", "GracefulCompleteTwoWay", workers=1)
+    cscen = chain_scenarios(ctx)
+    ctr = ctx.exec_scenarios(binary, cscen, "chain", testbin="TestVerifChain", shards=12, timeout=1800)
+    ctr = ctx.drop_dead(ctr)
+    ctx.sample({"group": "chain", "scenario": ctr[0]["scenario"], "events": ctr[0]["events"][:8]})
+    crej = ctx.validate("ChainTrace", "ChainTrace.cfg", ctr, label="trace validation: end-to-end chain", timeout=1800)
+    ctx.log("chain: %d traces, %d rejected" % (len(ctr), len(crej)))
+
+    def creexec(tr):
+        t2 = ctx.exec_scenarios(binary, [tr["scenario"]], "chain-re", testbin="TestVerifChain")
+        rej = ctx.validate("ChainTrace", "ChainTrace.cfg", t2, label="re-validation")
+        return rej[0] if rej else None
+    ctx.settle(crej, creexec, lambda tr: "real end-to-end chain run rejected at event %s: %s (scenario %s)" % (
+        tr["reject"]["at_event_index"], json.dumps(tr["reject"]["event"]), json.dumps(tr["scenario"])[:500]), attempts=2)
     # growth: the outgoing-proxy dialers behind the relay's remote side (ProxyDial.tla)
     ctx.tlc_expect_ok("ProxyDial", "ProxyDial_socks4.cfg", label="proxy dial, exact reader (SOCKS4): safety + liveness")
     ctx.tlc_expect_ok("ProxyDial", "ProxyDial_http.cfg", label="proxy dial, buffered reader (HTTP CONNECT): safety + liveness")
@@ -295,6 +345,8 @@ def replay(ctx, path):
     kind = v["scenario"].get("kind")
     if "cases" in v["scenario"]:
         mod, tb = "HandlerTrace", "TestVerifHandlers"
+    elif "transport" in v["scenario"]:
+        mod, tb = "ChainTrace", "TestVerifChain"
     elif kind in ("stream", "reply"):
         mod, tb = "ProxyDialTrace", "TestVerifProxyDial"
     else:
